@@ -43,8 +43,28 @@ SVS2 = [(250.0, 0.5), (1250.0, 1.5), (4500.0, 2.0)]
 SHAPE = [0]
 
 
+def hs_chart(target):
+    """Shape 3 (osu only): a source whose notes at one time carry sounds at three different volumes, and a target with fewer
+    notes at that time than there are sounds - which sounds survive must not depend on the source's row order."""
+    from reamber.osu import OsuBpm, OsuHit, OsuMap
+    from reamber.osu.lists import OsuBpmList
+    from reamber.osu.lists.notes import OsuHitList
+
+    m = OsuMap()
+    m.bpms = OsuBpmList([OsuBpm(0, 120)])
+    if target:
+        m.hits = OsuHitList([OsuHit(1000, 0), OsuHit(2000, 0), OsuHit(2000, 1)])
+    else:
+        m.hits = OsuHitList([OsuHit(1000, 0, hitsound_set=2, volume=20), OsuHit(1000, 1, hitsound_set=4, volume=60),
+                             OsuHit(1000, 2, hitsound_set=8, volume=40), OsuHit(2000, 0, hitsound_set=2, volume=0)])
+    return m
+
+
 def base(game):
     from mc import starts
+
+    if SHAPE[0] == 3:
+        return hs_chart(False)
 
     if SHAPE[0] == 2:
         n, b, v = starts.large_lists(300)
@@ -113,6 +133,10 @@ def roots(tier, seed):
             n = len(perms_of(base(g))[1])
             for s in range(0, n, CHUNK):
                 rs.append(dict(game=g, start=s, stop=min(n, s + CHUNK), shape=shape))
+    # sounds at several volumes on one time, fewer target notes than sounds: all 24 row orders of the source
+    n3 = 24
+    for st in range(0, n3, CHUNK):
+        rs.append(dict(game="osu", start=st, stop=min(n3, st + CHUNK), shape=3))
     # size: a chart of 300 notes under five fixed permutations of every list
     for g in charts.GAMES:
         rs.append(dict(game=g, start=0, stop=5, shape=2))
@@ -195,6 +219,8 @@ def ops_for(game):
 
         return f
 
+    if SHAPE[0] == 3:
+        return [("hitsound_copy_src", lambda m: sounds_key(hitsound_copy(m, hs_chart(True))))]
     sm_wrap = lambda m: charts.make_mapset("sm", [m], dict(offset=0.0, title="t", artist="ar"))
     o2_wrap = lambda m: charts.make_mapset("o2j", [m], dict(level=[1, 2, 3], title="t", artist="ar"))
     ops = [
